@@ -945,6 +945,9 @@ func (w *wworld) applyResp(x *wdt, resp *model.PushPullPack, why string) {
 		errG = gSome(gN(uint64(x.h.errs[ne])))
 		x.h.mu.Unlock()
 	}
+	if isErr && e2 == ne {
+		w.c.Violate("C16", "error-not-delivered", fmt.Sprintf("an error response for key %q (a %s) was not reported to the error handler", x.key, why), w.desc)
+	}
 	cpNow := r.dt.CreatePushPullPack().CheckPoint
 	np := uint64(len(r.dt.CreatePushPullPack().Operations))
 	curS, curC := cpNow.Sseq, cpNow.Cseq-np
@@ -1038,9 +1041,60 @@ func cloneP(p *model.PushPullPack) *model.PushPullPack {
 }
 
 func (w *wworld) local(x *wdt) {
-	r := x.rep
 	cw := &world{c: w.c, kind: w.kind}
-	cs := cw.rndCall(r)
+	w.localWith(x, cw.rndCall(x.rep))
+}
+
+// retouch: a scripted stretch on a list — an element is updated, synced, updated again, deleted, and something is
+// inserted next to the tombstone, with a sync (hence a stored snapshot and a rebuild from it) after every step
+func (w *wworld) retouch(x *wdt) {
+	if w.kind != "list" || x.rep.dt.GetState() != model.StateOfDatatype_SUBSCRIBED {
+		return
+	}
+	li := x.rep.li
+	ins := func(pos int) callSpec {
+		v := (&world{c: w.c, kind: w.kind}).rndTag()
+		return callSpec{fmt.Sprintf("(LInsert %s %s)", gZ(int64(pos)), gVals([]interface{}{v})), fmt.Sprintf("InsertMany(%d,[%v])", pos, v), func(r *replica) (string, error) {
+			ret, err := r.li.InsertMany(pos, v)
+			if !isNilErr(err) {
+				return "", err
+			}
+			return "(RVals " + gVals(ret.([]interface{})) + ")", nil
+		}}
+	}
+	upd := func(pos int) callSpec {
+		v := (&world{c: w.c, kind: w.kind}).rndTag()
+		return callSpec{fmt.Sprintf("(LUpdate %s %s)", gZ(int64(pos)), gVals([]interface{}{v})), fmt.Sprintf("Update(%d,[%v])", pos, v), func(r *replica) (string, error) {
+			ret, err := r.li.Update(pos, v)
+			if !isNilErr(err) {
+				return "", err
+			}
+			return "(RVals " + gVals(ret) + ")", nil
+		}}
+	}
+	del := func(pos int) callSpec {
+		return callSpec{fmt.Sprintf("(LDelete %s 1%%Z)", gZ(int64(pos))), fmt.Sprintf("DeleteMany(%d,1)", pos), func(r *replica) (string, error) {
+			ret, err := r.li.DeleteMany(pos, 1)
+			if !isNilErr(err) {
+				return "", err
+			}
+			return "(RVals " + gVals(ret) + ")", nil
+		}}
+	}
+	for li.Size() < 3 {
+		w.localWith(x, ins(li.Size()))
+	}
+	w.sync(x, 0)
+	p := w.c.Rng.Intn(li.Size() - 1)
+	for _, cs := range []callSpec{upd(p), upd(p), ins(p + 1), del(p), ins(p), upd(p)} {
+		w.localWith(x, cs)
+		w.sync(x, 0)
+	}
+	w.c.Count("ev-retouch")
+}
+
+func (w *wworld) localWith(x *wdt, cs callSpec) {
+	r := x.rep
 	var res string
 	var err error
 	p, msg := guarded(func() { res, err = cs.run(r) })
@@ -1176,6 +1230,16 @@ func (w *wworld) raw(x *wdt) {
 	w.c.Count("ev-raw")
 	if isErr {
 		w.c.Count("raw-refused")
+		// the request was damaged on its way (option bits, checkpoint, a missing operation): its refusal reaches the
+		// client, which has to report it and stay usable
+		if col == x.owner.col && cuid == x.owner.cuid && pack.DUID == r.dt.GetDUID() && pack.Key == x.key && w.c.Rng.Intn(2) == 0 {
+			before := len(r.dt.CreatePushPullPack().Operations)
+			w.applyResp(x, resp, "refusal of a request damaged in transit ("+what+")")
+			if after := len(r.dt.CreatePushPullPack().Operations); after < before {
+				w.c.Violate("C16", "refused-operations-dropped", fmt.Sprintf("after the refusal (%s) the client of key %q no longer offers %d of its unacknowledged operations", what, x.key, before-after), w.desc)
+			}
+			w.c.Count("raw-refusal-applied")
+		}
 	} else {
 		w.dirty = true // accepted: acts like a request whose response was lost
 	}
@@ -1343,6 +1407,9 @@ func sliceWire(c *Ctx, kind string) {
 					continue
 				}
 				switch k := c.Rng.Intn(100); {
+				case k < 3 && kind == "list":
+					w.cur = "retouch"
+					w.retouch(x)
 				case k < 6 && len(w.jobs) > 0:
 					w.cur = "stale-update"
 					w.staleUpdate()
